@@ -196,6 +196,30 @@ def _rows_of(frame):
 
 _OBJS = {}
 
+_CUSTOM = []
+
+
+def custom_mapping(d):
+    """An instance of a class of the caller's own that is a `Mapping` (not mutable, no dict): `__getitem__`, `__iter__`, `__len__`."""
+    if not _CUSTOM:
+        from collections.abc import Mapping
+
+        class RecordView(Mapping):
+            def __init__(self, d):
+                self._d = d
+
+            def __getitem__(self, k):
+                return self._d[k]
+
+            def __iter__(self):
+                return iter(self._d)
+
+            def __len__(self):
+                return len(self._d)
+
+        _CUSTOM.append(RecordView)
+    return _CUSTOM[0](d)
+
 
 def apply_edits(d, st):
     """`set` / `del` of a step on the dictionary object it names (`dict_id`): the same object is handed over again."""
@@ -225,6 +249,16 @@ def _dict(st):
         dd = collections.defaultdict(lambda: "from __missing__")
         dd.update(d)
         return dd
+    if k == "userdict":
+        return collections.UserDict(d)
+    if k == "chainmap":
+        return collections.ChainMap({}, d)
+    if k == "proxy":
+        import types
+
+        return types.MappingProxyType(d)
+    if k == "custom":
+        return custom_mapping(d)
     if k == "counter":
         c = collections.Counter()
         c.update({kk: v for kk, v in d.items()})
